@@ -263,7 +263,17 @@ func checkBudget(r *Run, prog *Program, a *Anchors, pfx string) {
 			continue
 		}
 		n := fn.Name()
-		if strings.HasPrefix(n, "parse") && (strings.HasSuffix(n, "Expr") || strings.HasSuffix(n, "Matcher")) && n != "parseExpr" {
+		// the combinators proper: what parseExpr dispatches to (a helper that wraps a call of parseExpr — push a frame,
+		// parse, pop it — is entered from wherever that triple was written out and counts through the parseExpr it calls)
+		dispatched := false
+		if pn := prog.CG.Nodes[parseExpr]; pn != nil {
+			for _, e := range pn.Out {
+				if e.Callee.Func == fn && e.Site != nil && e.Site.Common().StaticCallee() == fn {
+					dispatched = true
+				}
+			}
+		}
+		if dispatched && n != "parseExpr" {
 			engine = append(engine, n)
 			allowedCallers[n] = map[string]bool{"parseExpr": true}
 		}
